@@ -22,7 +22,13 @@ func runC02(c *Check) {
 	if !ruleTableTotal(c, "C02-R1", t, u, remoteCfgs) {
 		return
 	}
-	ruleAlgebra(c, "C02-R2", t, u, remoteCfgs)
+	ruleAlgebra(c, "C02-R2", t, u, remoteCfgs, true)
+	c.Rule("C02-R7", "CUTOFFS: with every stale-deletion cutoff the table stays total, idempotent, selective and monotone (a present key is never dropped or moved backwards); a marker is dropped exactly when the key is absent, the entry is deleted and older than the cutoff")
+	cut := []MCfg{{Cutoff: 1}, {Cutoff: 2}, {Cutoff: 3, Pad: true, CapBuf: 64}}
+	if ruleTableTotal(c, "C02-R7", t, u, cut) {
+		ruleAlgebra(c, "C02-R7", t, u, cut, false)
+		ruleStaleDrop(c, "C02-R7", t, u)
+	}
 	ruleKeepIdentity(c, "C02-R3", t)
 	ruleSetNewVal(c, "C02-R3")
 	ruleFlagsMasked(c, "C02-R5", t, u, remoteCfgs)
